@@ -9,7 +9,7 @@ from edgegraph.structure import Universe, TwoEndedLink
 
 
 def sizes(tier):
-    return {"quick": dict(depth=1, rand=1500, rlen=12), "thorough": dict(depth=2, rand=30000, rlen=40)}[tier]
+    return {"quick": dict(depth=1, rand=5000, rlen=14), "thorough": dict(depth=2, rand=30000, rlen=40)}[tier]
 
 
 def all_ops(p):
